@@ -31,6 +31,8 @@ CfgSlices ==
      cap_const  |-> {Cf(c, None, None, wg, TRUE) : c \in {1, 2}, wg \in {FALSE, TRUE}},
      expiry     |-> {Cf(None, ttl, tti, FALSE, FALSE) : ttl \in {None, 0, 2}, tti \in {None, 2}},
      ttl_tti    |-> {Cf(None, 2, 2, FALSE, FALSE)},
+     ttl2       |-> {Cf(None, 2, None, FALSE, FALSE)},
+     tti2       |-> {Cf(None, None, 2, FALSE, FALSE)},
      cap1_ttl   |-> {Cf(1, 2, None, FALSE, FALSE)},
      cap2_tti   |-> {Cf(2, None, 2, FALSE, FALSE)},
      cap2_ttl_tti_w |-> {Cf(2, 2, 2, TRUE, FALSE)},
